@@ -2,8 +2,8 @@
    One case per line, whitespace separated tokens:
      <id> <sheet> N <count> <key>* M <npat> <bits>* Q <nq> <query>*
      sheet := S <nitems> item* <nimports> sheet*
-     item  := T <id> <mode|-> <prio|-> <text> <nalts> alt*  |  I <n> item*
-     alt   := <patid> <tname> <ttype> <score> <run-time score>     tname: t c r p n a N<int>; ttype: e a y o; scores 0..4
+     item  := T <id> <mode|-> <prio|-> <nalts> alt*  |  I <n> item*
+     alt   := <patid> <tname> <ttype> <score>     tname: t c r p n a N<int>; ttype: e a y o; score 0..4
      key   := e<int> a<int> t c p r x o
      bits  := string of 0/1, one char per node (alternative <patid> alone matches the node)
      query := <quiet 0|1> <pathlen> <idx>* <only_imports 0|1> <mode|->
@@ -39,18 +39,16 @@ let () =
             | "e" -> TTElement | "a" -> TTAttribute | "y" -> TTAny | "o" -> TTOther | s -> raise (Bad ("ttype " ^ s)) in
           let score () = match int () with 0 -> ScNone | 1 -> ScNodeTest | 2 -> ScNSWild | 3 -> ScQName | _ -> ScOther in
           let sc = score () in
-          let rsc = score () in
-          { a_pat = pat; a_target = { tg_name = tn; tg_type = tt }; a_score = sc; a_rscore = rsc } in
+          { a_pat = pat; a_target = { tg_name = tn; tg_type = tt }; a_score = sc } in
         let rec item () =
           match next () with
           | "T" ->
             let tid = n_of_int (int ()) in
             let mode = opt_n () in
             let prio = opt_z () in
-            let text = n_of_int (int ()) in
             let k = int () in
             let alts = times k alt in
-            ITmpl { t_id = tid; t_mode = mode; t_prio = prio; t_text = text; t_alts = alts }
+            ITmpl { t_id = tid; t_mode = mode; t_prio = prio; t_alts = alts }
           | "I" -> let k = int () in IIncl (times k item)
           | s -> raise (Bad ("item " ^ s)) in
         let rec sheet () =
